@@ -172,7 +172,7 @@ def run_case(case, rng):
                     if po > 0:
                         vec = np.array([post.get(s, 0.0) for s in S])
                         for g_ in groups:
-                            if np.allclose(g_[0], vec, rtol=0, atol=1e-9):
+                            if np.allclose(g_[0], vec, rtol=1e-9, atol=1e-13):
                                 g_[1] += po
                                 break
                         else:
@@ -182,7 +182,7 @@ def run_case(case, rng):
                     if p > 0:
                         vec = np.array(nb.probs, dtype=float)
                         for g_ in got:
-                            if np.allclose(g_[0], vec, rtol=0, atol=1e-9):
+                            if np.allclose(g_[0], vec, rtol=1e-9, atol=1e-13):
                                 g_[1] += p
                                 break
                         else:
@@ -190,7 +190,7 @@ def run_case(case, rng):
                 ok = len(got) == len(groups)
                 if ok:
                     for vec, p in got:
-                        m = [g_ for g_ in groups if np.allclose(g_[0], vec, rtol=0, atol=1e-9)]
+                        m = [g_ for g_ in groups if np.allclose(g_[0], vec, rtol=1e-9, atol=1e-13)]
                         if len(m) != 1 or not _close(m[0][1], p, 1e-10):
                             ok = False
                             break
